@@ -505,6 +505,52 @@ Fixpoint split_wild (cs : path) : path * path :=
   | c :: r => if has_wild c then ([], cs) else let '(a, b) := split_wild r in (c :: a, b)
   end.
 
+(* ---- backslash escapes (Linux): containsWildcards skips the byte after a backslash; filepath.Match
+   takes it literally.  Character classes ([...]) and a trailing lone backslash stay outside the model. *)
+Fixpoint has_wild_e (c : bytes) : bool :=
+  match c with
+  | [] => false
+  | x :: r =>
+    if N.eqb x ch_bsl then match r with [] => false | _ :: r' => has_wild_e r' end
+    else N.eqb x ch_star || N.eqb x ch_qm || N.eqb x ch_lbr || has_wild_e r
+  end.
+(* an unescaped '[' or a trailing lone backslash *)
+Fixpoint has_unsupported_e (c : bytes) : bool :=
+  match c with
+  | [] => false
+  | x :: r =>
+    if N.eqb x ch_bsl then match r with [] => true | _ :: r' => has_unsupported_e r' end
+    else N.eqb x ch_lbr || has_unsupported_e r
+  end.
+Fixpoint split_wild_e (cs : path) : path * path :=
+  match cs with
+  | [] => ([], [])
+  | c :: r => if has_wild_e c then ([], cs) else let '(a, b) := split_wild_e r in (c :: a, b)
+  end.
+(* filepath.Match on one component: literals, '*', '?', '\x' *)
+Fixpoint glob_e (pat name : bytes) {struct pat} : bool :=
+  match pat with
+  | [] => match name with [] => true | _ => false end
+  | c :: pr =>
+    if N.eqb c ch_star then
+      (fix try (n : bytes) : bool := glob_e pr n || match n with [] => false | _ :: n' => try n' end) name
+    else if N.eqb c ch_bsl then
+      match pr with
+      | [] => false
+      | e :: pr' => match name with [] => false | x :: nr => N.eqb e x && glob_e pr' nr end
+      end
+    else match name with
+         | [] => false
+         | x :: nr => (N.eqb c ch_qm || N.eqb c x) && glob_e pr nr
+         end
+  end.
+Fixpoint glob_path_e (pat rel : path) : bool :=
+  match pat, rel with
+  | [], [] => true
+  | p :: pr, r :: rr => glob_e p r && glob_path_e pr rr
+  | _, _ => false
+  end.
+
 (* resolveWildcards: filepath.Walk below [n] (names in stored = lexical order), matches are
    not descended into *)
 Fixpoint wild_walk (pat : path) (rel : path) (n : snode) {struct n} : list path :=
@@ -515,7 +561,7 @@ Fixpoint wild_walk (pat : path) (rel : path) (n : snode) {struct n} : list path 
        | [] => []
        | k :: r =>
          let rel' := rel ++ [sname k] in
-         (if glob_path pat rel' then [rel']
+         (if glob_path_e pat rel' then [rel']
           else if is_dir (sdent k) then wild_walk pat rel' k else []) ++ go r
        end) kids
   end.
@@ -574,13 +620,15 @@ Section Top.
       end
     end.
 
-  (* ResolveWildcards: splitWildcards on Clean(src), then the walk below the literal prefix *)
+  (* ResolveWildcards: splitWildcards on Clean(src) (backslash escapes honoured: the components before
+     the first one with an unescaped metacharacter are a literal path, backslashes included), then the
+     walk below the literal prefix *)
   Definition resolve_wild (src : bytes) : list bytes + err :=
     let cs0 := match src with [] => [[]] | _ => comps (clean src) end in
     let cs := map (fun c => match c with [] => [sep] | _ => c end) cs0 in
-    let '(p1, p2) := split_wild cs in
+    let '(p1, p2) := split_wild_e cs in
     let d1 := match p1 with [] => [] | _ => clean (joinc p1) end in
-    if existsb has_unsupported cs then inr EScope else
+    if existsb has_unsupported_e p2 then inr EScope else
     match p2 with
     | [] => inl [d1]
     | _ =>
